@@ -382,6 +382,9 @@ class Probe:
         self.loaded_objs = []    # every object returned by a successful load
         self.mid = None
         self.gate = gate
+        self.who = lambda: None  # overlapping checks: which check (thread) is making the call
+        self.by_who = {}         # check -> its calls
+        self.loaded_by = []      # parallel to loaded_objs: the check whose load() returned the object
         o_etag, o_load = src.etag, src.load
         probe = self
 
@@ -396,8 +399,10 @@ class Probe:
 
         def after(name, seen, kind, val):
             probe.calls.append((name, seen, kind, val))
+            probe.by_who.setdefault(probe.who(), []).append((name, seen, kind, val))
             if kind == "ok" and name == "load":
                 probe.loaded_objs.append(val)
+                probe.loaded_by.append(probe.who())
             if probe.mid is not None:
                 ev, probe.mid = probe.mid, None
                 probe.world.apply(ev)
@@ -433,6 +438,60 @@ class Probe:
 
 def window_bound(cfg):
     return max(0.2, cfg[1] * (1 + cfg[2]))
+
+
+def gated_guard_class(Guard, gate):
+    """the real Guard, with set_policy passing through the scheduler's gate at its entry and at its exit (exactly
+    like the source calls): the engine installation step of a check can be pre-empted."""
+
+    class GatedGuard(Guard):
+        def set_policy(self, policy):
+            gate("set_policy", "enter", None)
+            try:
+                r = Guard.set_policy(self, policy)
+            except BaseException:
+                gate("set_policy", "exit", "exc")
+                raise
+            gate("set_policy", "exit", "ok")
+            return r
+
+    return GatedGuard
+
+
+def _lock_like(v):
+    return hasattr(v, "acquire") and hasattr(v, "release") and (hasattr(v, "_is_owned") or hasattr(v, "locked"))
+
+
+def holds_a_lock_of(obj):
+    """does the calling thread hold one of the lock objects among obj's attributes (HotReloader._lock)?  Exact for
+    RLock (_is_owned); for a plain Lock `locked()` is exact as long as no *parked* thread holds it, which is an
+    invariant of the scheduler (it never parks a thread that holds one)."""
+    for v in list(vars(obj).values()):
+        if not _lock_like(v):
+            continue
+        own = getattr(v, "_is_owned", None)
+        if own is not None:
+            try:
+                if own():
+                    return True
+                continue
+            except Exception:  # noqa: BLE001
+                pass
+        lk = getattr(v, "locked", None)
+        if lk is not None and lk():
+            return True
+    return False
+
+
+def locks_all_free(obj, timeout=5.0):
+    """main thread, every check parked or finished: can each lock of obj be taken?  (a parked check that holds the
+    reloader's lock would block every other check and the harness's own reads of last_etag / suppressed_until)"""
+    for v in list(vars(obj).values()):
+        if _lock_like(v):
+            if not v.acquire(timeout=timeout):
+                return False
+            v.release()
+    return True
 
 
 # --------------------------------------------------------------------------
@@ -480,7 +539,7 @@ class Setup:
             self.probe = Probe(self.src, self.world, gate)
             self.cache = CountingCache()
             self.p0 = doc_obj(c["p0"])
-            self.guard = Guard(self.p0, cache=self.cache)
+            self.guard = (gated_guard_class(Guard, gate) if gate is not None else Guard)(self.p0, cache=self.cache)
             cfg = c["cfg"]
             self.r = loader.HotReloader(self.guard, self.src, initial_load=bool(c["initial_load"]),
                                         poll_interval=None, backoff_min=cfg[0], backoff_max=cfg[1],
@@ -760,44 +819,87 @@ def tail_verdict(c, out, last_apply):
     if out.get("final_loadable_doc") is None:
         return "not-loadable", None
     snaps, infos = out["snaps"], out["checks"]
+    t3 = tail[2]             # tail = indices of the three tail checks in the script
+    view = [{"res": snaps[t + 1][0], "calls": infos[t]["calls"], "policy": snaps[t + 1][1], "clears": snaps[t + 1][2],
+             "stored": snaps[t + 1][5], "step": t} for t in tail]
+    return tail_core(c, out, view, last_apply, infos[t3]["after_content"], True)
+
+
+def tail_core(c, out, view, last_apply, cur_content, coherent):
+    """the convergence clause on the three tail checks (view: per tail check its result, its source calls and the
+    engine's document / clear count / remembered tag after it).  last_apply = (content seen by etag(), content seen
+    by load()) of the check that recorded the remembered tag; coherent = the document the engine enforces was
+    returned by the load() of that same check (always so when checks do not overlap)."""
     d = out["final_loadable_doc"]
-    t1, t2, t3 = tail            # indices of the three tail checks in the script
-    after2, after3 = snaps[t2 + 1], snaps[t3 + 1]
-    calls3 = infos[t3]["calls"]
+    v1, v2, v3 = view
+    calls3 = v3["calls"]
     et3 = [x for x in calls3 if x[0] == "etag" and x[2] == "ok"]
     reports_tag = bool(et3) and isinstance(et3[0][3], str)
     failed = None
-    if after2[1] != d:
+    if v2["policy"] != d:
         failed = ("after two unforced checks on a stable, loadable source the engine does not enforce the "
-                  "source's document", {"engine": after2[1], "source": d})
-    elif reports_tag and (after3[0] is not False or any(x[0] == "load" for x in calls3)):
-        failed = ("source reports a tag but a later check still loads / returns True", {"step": t3})
-    elif not reports_tag and after3[1] != d:
-        failed = ("engine left the source's document", {"engine": after3[1], "source": d})
+                  "source's document", {"engine": v2["policy"], "source": d})
+    elif reports_tag and (v3["res"] is not False or any(x[0] == "load" for x in calls3)):
+        failed = ("source reports a tag but a later check still loads / returns True", {"step": v3["step"]})
+    elif not reports_tag and v3["policy"] != d:
+        failed = ("engine left the source's document", {"engine": v3["policy"], "source": d})
     if not failed:
         return "converged", None
-    stored = after3[5]
-    cur_content = infos[t3]["after_content"]
+    stored = v3["stored"]
     # proviso of the statement: initial loading disabled, nothing applied yet, and the source's tag is (again) the
     # one read at construction: the reloader cannot tell the source from its initial state
-    if (not c["initial_load"]) and after3[2] == 0 and stored is not None and stored == out.get("primed") \
+    if (not c["initial_load"]) and v3["clears"] == 0 and stored is not None and stored == out.get("primed") \
             and et3 and et3[0][3] == stored:
         return "proviso-not-met", None
     # both open findings have the same symptom: the tail checks that lie entirely in the stable world (the first one
     # may straddle its beginning) found "tag unchanged" - etag() returned the stored tag, no load(), False - while
     # the engine holds another document than the source
-    stuck = all(snaps[t + 1][0] is False and [x[0] for x in infos[t]["calls"]] == ["etag"]
-                and infos[t]["calls"][0][2] == "ok" and infos[t]["calls"][0][3] == stored for t in (t2, t3)) \
-        and not any(x[0] == "load" and x[2] == "ok" for x in infos[t1]["calls"])
+    stuck = all(v["res"] is False and [x[0] for x in v["calls"]] == ["etag"]
+                and v["calls"][0][2] == "ok" and v["calls"][0][3] == stored for v in (v2, v3)) \
+        and not any(x[0] == "load" and x[2] == "ok" for x in v1["calls"])
     # F9: HTTP source behind a server that sends ETags; stored tag = the tag the source object remembers
-    if stuck and c["kind"] == ["http", True] and stored is not None and stored == out.get("src_etag_attr"):
+    if stuck and coherent and c["kind"] == ["http", True] and stored is not None and stored == out.get("src_etag_attr"):
         return "F9", failed
     # F20: content tag stored by a check whose etag() and load() saw different contents, and the source is back
     # at the content that etag() saw
-    if (stuck and content_kind_tag(c, stored) and c["kind"][0] != "http" and last_apply is not None
+    if (stuck and coherent and content_kind_tag(c, stored) and c["kind"][0] != "http" and last_apply is not None
             and last_apply[0] != last_apply[1] and last_apply[0] is not None and last_apply[0] == cur_content):
         return "F20", failed
     return "failed", failed
+
+
+def conc_tail_verdict(c, out):
+    """tail_core for a script of overlapping checks followed by three sequential unforced ones (c["tail"] = their
+    check numbers).  The remembered tag was recorded by the last check that returned True (the bookkeeping is the
+    last thing a check does); both open findings leave the engine with the document that this very check loaded -
+    a remembered tag that belongs to another check's document is neither of them."""
+    tail = c.get("tail")
+    if tail is None:
+        return None, None
+    if out.get("final_loadable_doc") is None:
+        return "not-loadable", None
+    th, snaps = out["threads"], out["snaps"]
+    view = []
+    for t in tail:
+        sn = snaps[th[t]["done_at"]]
+        view.append({"res": th[t]["result"], "calls": th[t]["calls"], "policy": sn[1], "clears": sn[2],
+                     "stored": sn[5], "step": "check %d" % t})
+    appliers = [i for i in out["finish_order"] if th[i]["result"] is True]
+    last_apply, coherent = None, True
+    if appliers:
+        w = appliers[-1]
+        e_seen = [x[1] for x in th[w]["calls"] if x[0] == "etag"]
+        l_seen = [x[1] for x in th[w]["calls"] if x[0] == "load"]
+        last_apply = (e_seen[0] if e_seen else None, l_seen[0] if l_seen else None)
+        coherent = w in out["policy_loaded_by"]
+    verdict, detail = tail_core(c, out, view, last_apply, out["final_content"], coherent)
+    if verdict == "failed":
+        detail = (detail[0], dict(detail[1], remembered_tag=view[2]["stored"],
+                                  tag_recorded_by_check=appliers[-1] if appliers else None,
+                                  engine_document_loaded_by_checks=out["policy_loaded_by"],
+                                  tail_results=[v["res"] for v in view],
+                                  tail_calls=[[x[0] for x in v["calls"]] for v in view]))
+    return verdict, detail
 
 
 _WITNESS = {}
@@ -1075,8 +1177,15 @@ def impl_run_conc(c):
     """script with ["spawn", force] / ["step", i, now, u] / ["ev", e] commands.  A model step of check i is
     mapped to: run thread i up to its next gate.  Gates sit at the entry of every source call and right
     after it returns, which separates exactly the model's atomic steps:
-       start-block | etag() | load() | apply-block or error-block."""
-    out = {"snaps": [], "error": None, "results": {}}
+       start-block | etag() | load() | apply-block or error-block.
+    The model's apply-block (Reload.step, PApply: guard.set_policy + tag/back-off bookkeeping) is ONE step.  The
+    implementation makes it one by calling set_policy with the reloader's lock held.  That is tested here: the
+    guard's set_policy passes through a gate at its entry and exit as well; a check that gets there WITHOUT holding
+    a lock of the reloader parks (out["sp_unlocked"]), so that the other check can be scheduled between
+    {load() returned | set_policy | bookkeeping}; with the lock held the gate is passed (parking there could only
+    block the others, i.e. the block is atomic with respect to every other check).  A step command for a check that
+    has already returned is a no-op on both sides, so scripts simply give every check six steps."""
+    out = {"snaps": [], "error": None, "results": {}, "sp_unlocked": 0, "sp_locked": 0, "finish_order": []}
     turns = Turns()
     names = {}
 
@@ -1085,9 +1194,19 @@ def impl_run_conc(c):
     def gate(name, where, kind):
         """park exactly where the model's program counter changes:
            PEtag = at the entry of etag(); PLoad = at the entry of load(); PApply = load() has returned;
-           PErr = etag() raised in an unforced check / load() raised."""
+           PErr = etag() raised in an unforced check / load() raised;
+           and, only when no reloader lock is held, around guard.set_policy (no model counterpart)."""
         me = names.get(threading.get_ident())
         if me is None:
+            return
+        if name == "set_policy":
+            if holds_a_lock_of(su.r):
+                if where == "enter":
+                    out["sp_locked"] += 1
+                return
+            if where == "enter":
+                out["sp_unlocked"] += 1
+            turns.gate(me)
             return
         if where == "enter":
             turns.gate(me)
@@ -1099,7 +1218,9 @@ def impl_run_conc(c):
     except Exception as e:  # noqa: BLE001
         out["error"] = "setup raised %s: %s" % (type(e).__name__, e)
         return out
+    su.probe.who = lambda: names.get(threading.get_ident())
     threads = []
+    done_at = {}
     # per-thread scripted clock / jitter: the fake time/random objects look the values up by thread
     nowmap, umap = {}, {}
     su.ft.time = lambda: nowmap.get(names.get(threading.get_ident()), 0.0)   # type: ignore[method-assign]
@@ -1115,15 +1236,19 @@ def impl_run_conc(c):
             out["results"][i] = su.r.check_and_reload(force=force)
         except Exception as e:  # noqa: BLE001
             out["results"][i] = "raised %s" % type(e).__name__
+        out["finish_order"].append(i)
         turns.finish(i)
 
     def snap():
+        if not locks_all_free(su.r):
+            raise RuntimeError("a check parked at a source call / at set_policy holds the reloader's lock")
         res = [out["results"].get(i) if i in turns.done else None for i in range(len(threads))]
         known = (su.guard.policy is su.p0) or any(su.guard.policy is o for o in su.probe.loaded_objs)
         return su.snap(None) + [res, known]
 
     try:
         out["snaps"].append(snap())
+        out["primed"] = su.r.last_etag
         for cmd in c["script"]:
             if cmd[0] == "ev":
                 su.world.apply(cmd[1])
@@ -1148,6 +1273,21 @@ def impl_run_conc(c):
             else:
                 raise ValueError(cmd)
             out["snaps"].append(snap())
+            for i in turns.done:
+                done_at.setdefault(i, len(out["snaps"]) - 1)
+        if not out["error"]:
+            left = [i for i in range(len(threads)) if i not in turns.done]
+            if left:
+                out["error"] = "checks %r had not returned after all their steps (more pre-emption points than " \
+                               "start | etag | load | set_policy entry | set_policy exit | end?)" % (left,)
+        out["final_loadable_doc"] = su.world.loadable_doc()
+        out["final_content"] = su.world.content()
+        out["src_etag_attr"] = getattr(su.src, "_etag", None) if c["kind"][0] == "http" else None
+        # the checks whose load() returned the very object the engine enforces now
+        out["policy_loaded_by"] = [w for o, w in zip(su.probe.loaded_objs, su.probe.loaded_by) if o is su.guard.policy]
+        out["threads"] = [{"result": out["results"].get(i), "done_at": done_at.get(i), "force": forces[i],
+                           "calls": [(n, s_, k, (v if (n == "etag" or k == "exc") else pol_id(v)))
+                                     for n, s_, k, v in su.probe.by_who.get(i, [])]} for i in range(len(threads))]
     except Exception as e:  # noqa: BLE001
         out["error"] = "harness error %s: %s" % (type(e).__name__, e)
     finally:
